@@ -99,12 +99,95 @@ def _weights(cfg):
     return w
 
 
+def _scenario(rng, cfg, profile):
+    """Scripted multi-step openings (random fill follows): the sequences that expose things remembered
+    across calls - import, update in place, import again; ask, update, ask again; ..."""
+    names = ["import_update_reimport", "ask_update_ask", "screening", "iodata_twice", "overwrite_reparse"]
+    if profile == "C18":
+        names = ["import_update_reimport", "overwrite_reparse", "import_update_reimport", "pyscf_twice"]
+    name = rng.choice(names)
+    cfg["scenario"] = name
+    quiet = dict(cfg, p_fault=0.0, p_invalid=0.0)
+    ops = []
+    if name == "import_update_reimport":
+        ops.append(g_write_file(rng, cfg, new=True))
+        ops.append(g_parse(rng, cfg, keep=True))
+        ops.append(g_make_contr(rng, cfg, keep=True))
+        if rng.random() < 0.5:
+            ops.append(g_query(rng, quiet, fn=rng.choice(["overlap_integral", "evaluate_basis", "kinetic_energy_integral"])))
+        u = g_update(rng, quiet)
+        u["what"] = rng.choice(["exps", "coeffs"])
+        u["how"] = "inplace"
+        ops.append(u)
+        ops.append(g_parse(rng, quiet, keep=False))
+        ops.append(g_make_contr(rng, quiet, keep=False))
+        ops.append(g_parse(rng, quiet, keep=True))
+        ops.append(g_make_contr(rng, quiet, keep=True))
+    elif name == "ask_update_ask":
+        for _ in range(rng.randint(1, 2)):
+            ops.append(g_new_shell(rng, cfg))
+        ops.append(g_new_container(rng, cfg))
+        q = g_query(rng, quiet)
+        q["keep"] = None
+        ops.append(q)
+        for _ in range(rng.randint(1, 3)):
+            u = g_update(rng, quiet)
+            ops.append(u)
+            ops.append(dict(q))
+    elif name == "screening":
+        a, b = _exp(rng), _exp(rng)
+        tol = math.exp(rng.uniform(math.log(1e-10), math.log(0.5)))
+        cutoff = math.sqrt(-(a + b) / (a * b) * math.log(tol))
+        dist = cutoff * rng.choice([0.8, 0.9, 0.97, 1.03, 1.1, 1.25])
+        for k, (e, xyz) in enumerate(((a, [0.0, 0.0, 0.0]), (b, [dist, 0.0, 0.0]))):
+            sh = g_new_shell(rng, cfg)
+            sh.update({"exps": [e, e * 3.1][: rng.randint(1, 2)], "coord": {"mode": "fresh", "xyz": xyz},
+                       "share": {"mode": "none"}, "coeffs1d": False, "cls": "base"})
+            sh["coeffs"] = [[_coef(rng)] for _ in sh["exps"]]
+            ops.append(sh)
+        ops.append({"op": "new_container", "type": "list", "members": [0, 1]})
+        q = g_query(rng, quiet, fn="overlap_integral")
+        q["params"]["tol_screen"] = tol
+        q["keep"] = None
+        q["transform"] = None
+        ops.append(q)
+        for _ in range(2):
+            u = g_update(rng, quiet)
+            u.update({"what": "exps", "how": rng.choice(["inplace", "rebind"]),
+                      "factor": rng.choice([0.6, 0.75, 1.3, 1.6]), "sd": rng.randrange(2)})
+            ops.append(u)
+            ops.append(dict(q))
+    elif name == "iodata_twice":
+        ops.append(g_new_iodata(rng, cfg))
+        ops.append(g_from_iodata(rng, quiet, keep=True))
+        q = g_query(rng, quiet, fn=rng.choice(["evaluate_basis", "overlap_integral", "kinetic_energy_integral"]))
+        q["keep"] = None
+        ops.append(q)
+        ops.append(g_new_iodata(rng, cfg))
+        ops.append(g_from_iodata(rng, quiet, keep=rng.random() < 0.5))
+        ops.append(dict(q))
+    elif name == "overwrite_reparse":
+        ops.append(g_write_file(rng, cfg, new=True))
+        ops.append(g_parse(rng, quiet, keep=rng.random() < 0.5))
+        ops.append(g_write_file(rng, cfg, new=False))
+        ops.append(g_parse(rng, quiet, keep=rng.random() < 0.5))
+        ops.append(g_make_contr(rng, quiet, keep=False))
+    elif name == "pyscf_twice":
+        ops.append(g_new_mole(rng, cfg))
+        ops.append(g_from_pyscf(rng, quiet, keep=rng.random() < 0.5))
+        ops.append(g_from_pyscf(rng, quiet, keep=False))
+        ops.append(g_from_pyscf(rng, quiet, keep=True))
+    return ops
+
+
 def gen_history(seed, profile):
     rng = random.Random(seed)
     cfg = gen_config(rng, profile)
     ops = []
     # preamble: something to work on
-    if profile == "C18" or rng.random() < 0.3:
+    if rng.random() < 0.35:
+        ops.extend(_scenario(rng, cfg, profile))
+    elif profile == "C18" or rng.random() < 0.3:
         ops.append(g_write_file(rng, cfg, new=True))
         ops.append(g_parse(rng, cfg, keep=True))
         ops.append(g_make_contr(rng, cfg, keep=True))
@@ -193,6 +276,11 @@ def g_new_shell(rng, cfg):
     else:
         share = {"mode": "both", "d": rng.randrange(D)}
     coeffs = [[_coef(rng) for _ in range(M)] for _ in range(K)]
+    if rng.random() < 0.12:  # a column of very small or very large coefficients is as valid as any other
+        j = rng.randrange(M)
+        f = rng.choice([1e-5, 1e-9, 1e-3, 1e4])
+        for row in coeffs:
+            row[j] *= f
     if rng.random() < 0.04:  # a degenerate but accepted contraction: one column of zeros (infinite norm_cont)
         j = rng.randrange(M)
         for row in coeffs:
@@ -414,6 +502,10 @@ def g_update(rng, cfg):
         "env": g_env(rng, cfg),
         "fault": g_fault(rng, cfg),
         "twin_tol": math.exp(rng.uniform(math.log(1e-10), math.log(0.9))),
+        # None: replace by the drawn values; a number: multiply the current values by it (tiny changes matter:
+        # a renormalisation may not be skipped because the parameters "look" unchanged)
+        "factor": rng.choice([None, None, None, 1 + 4e-6, 1 - 3e-7, 1 + 1e-9, 2.0, 0.5, 1 + 1e-3]),
+        "factor_index": rng.randrange(D),
     }
 
 
